@@ -156,9 +156,10 @@ def c05(run):
         run.broke('harness build', o[-1500:])
     else:
         D.correspond(run, 'alg', [])
+        D.oracle(run, 'reuse', [])
     run.cov['rule'] = ('5 single-key kinds x produce/consume x (header alg, key alg) over the 24 registered algorithms incl. pairs sharing key material x 11 header representations '
                        '(int, int64, uint64, key.Alg, int32, text, null, float, bytes, out-of-range, bool) x headers present/absent/nil; COSE_Sign with 1-3 signers and verifiers by kid; '
-                       'thorough: all 24x24 ordered pairs x 5 kinds x 3 representations')
+                       'thorough: all 24x24 ordered pairs x 5 kinds x 3 representations; stream reuse: a decoded message produced again by its owner with a key of a sibling algorithm (incl. the pairs sharing key bytes), before and after the protected header is edited in place: refused, resp. leaves the library naming the new key\'s algorithm and is accepted under that key only')
     return D.finish(run, 'proof')
 
 
@@ -175,8 +176,9 @@ def c06(run):
         run.broke('harness build', o[-1500:])
     else:
         D.correspond(run, 'nonce', [])
+        D.oracle(run, 'reuse', [])
     run.cov['rule'] = ('Encrypt0/Encrypt x nonce sizes 7/12/13 x IV, Partial IV, Base IV presences, lengths 0..20 and wrong types, with a known entropy stream and a recording encryptor (Encrypt and Decrypt); '
-                       '12 real AEADs x nonce lengths 0..17; library-chosen nonces of fresh messages under real entropy (quick 3x4000, thorough 3x200000)')
+                       '12 real AEADs x nonce lengths 0..17; library-chosen nonces of fresh messages under real entropy (quick 3x4000, thorough 3x200000); stream reuse: an object encrypted once (library-chosen IV) given an IV by the caller and encrypted again, twice: the caller\'s IV is published and the message decrypts')
     return D.finish(run, 'proof')
 
 
@@ -389,7 +391,7 @@ def c10(run):
         run.broke('harness build', o[-1500:])
     else:
         D.correspond(run, 'sig', [], reference_theorem='C10_decode_encode / C10_encode_decode / C10_tables_are_rfc9053 (EncodeSignature, DecodeSignature, ComputeHash)')
-    run.cov['rule'] = ('EncodeSignature / DecodeSignature on r, s in {0, 1, 255, 256, 2^k, n-1, n, n+1, 2^(8 size)-1, 2^(8 size), -1, random} for the 3 curves, signatures of 7 lengths; ComputeHash on block-boundary lengths; '
+    run.cov['rule'] = ('EncodeSignature / DecodeSignature on r, s in {0, 1, 255, 256, 2^k, n-1, n, n+1, 2^(8 size)-1, 2^(8 size), -1, random} for the 3 curves, signatures of 7 lengths; signatures with chosen r and s (1, 2, 3, size-1 leading zero octets in r and/or s: a point with chosen x, the public key computed as r^-1(sR - eG)) verified by the library under the uncompressed and compressed key; ComputeHash on block-boundary lengths; '
                        '3 ECDSA algorithms x keys from small scalars, scalars with leading zero bytes, coordinates with leading zero bytes x messages 0..1000 (thorough: 64 KiB) bytes: library signature verified by crypto/ecdsa with the prescribed hash, crypto/ecdsa signature verified by the library, under the derived / exported / compressed / private / Go-converted key; other data, other key, 6 other lengths, bit flips; Ed25519 compared byte for byte with crypto/ed25519')
     return D.finish(run, 'proof')
 
